@@ -43,12 +43,15 @@ def instrument():
     orig_sat = ss.solver_is_sat
 
     def counted_sat(solver, *exprs):
-        t = time.time()
-        COUNT["queries"] += 1
+        from crosshair.tracers import NoTracing
+        with NoTracing():          # time.time is intercepted (made symbolic) while tracing
+            t = time.perf_counter()
+            COUNT["queries"] += 1
         try:
             return orig_sat(solver, *exprs)
         finally:
-            COUNT["solver_s"] += time.time() - t
+            with NoTracing():
+                COUNT["solver_s"] += time.perf_counter() - t
 
     ss.solver_is_sat = counted_sat
     orig_choose = ss.StateSpace.choose_possible
